@@ -1562,7 +1562,8 @@ class ClassicChannel(utils.EventEmitter):
         self._change_state(self.State.CLOSED)
         if self.disconnection_result:
             # We were disconnecting too: the channel is closed, that's what we wanted
-            self.disconnection_result.set_result(None)
+            if not self.disconnection_result.done():
+                self.disconnection_result.set_result(None)
             self.disconnection_result = None
         self.manager.on_channel_closed(self)
         self.emit(self.EVENT_CLOSE)
@@ -1582,7 +1583,8 @@ class ClassicChannel(utils.EventEmitter):
 
         self._change_state(self.State.CLOSED)
         if self.disconnection_result:
-            self.disconnection_result.set_result(None)
+            if not self.disconnection_result.done():
+                self.disconnection_result.set_result(None)
             self.disconnection_result = None
         self.manager.on_channel_closed(self)
         self.emit(self.EVENT_CLOSE)
@@ -1751,7 +1753,8 @@ class LeCreditBasedChannel(utils.EventEmitter):
             self.connection_result.cancel()
             self.connection_result = None
         if self.disconnection_result is not None:
-            self.disconnection_result.set_result(None)
+            if not self.disconnection_result.done():
+                self.disconnection_result.set_result(None)
             self.disconnection_result = None
         self.flush_output()
         if was_open:
@@ -1889,7 +1892,8 @@ class LeCreditBasedChannel(utils.EventEmitter):
         )
         self.manager.on_channel_closed(self)
         if self.disconnection_result is not None:
-            self.disconnection_result.set_result(None)
+            if not self.disconnection_result.done():
+                self.disconnection_result.set_result(None)
             self.disconnection_result = None
         self.flush_output()
         self._change_state(self.State.DISCONNECTED)
@@ -1908,7 +1912,8 @@ class LeCreditBasedChannel(utils.EventEmitter):
 
         self.manager.on_channel_closed(self)
         if self.disconnection_result:
-            self.disconnection_result.set_result(None)
+            if not self.disconnection_result.done():
+                self.disconnection_result.set_result(None)
             self.disconnection_result = None
         self._change_state(self.State.DISCONNECTED)
 
